@@ -246,7 +246,8 @@ def visit_one(ex, obj, cc, x, line):
     """self.visit(x): the class-level visitor contract (induction hypothesis)."""
     S = ex.S
     t = ex.to_py(x)
-    env = {"node": Z(t), "self": obj, "__old__": {"self": snapshot(obj), "node": Z(t)}}
+    env = dict(ex.closure_env)
+    env.update({"node": Z(t), "self": obj, "__old__": {"self": snapshot(obj), "node": Z(t)}})
     for i, r in enumerate(cc.get("visit_requires", [])):
         ex.oblige("pre", f"visit:requires[{i}]", ex.to_bool(eval_spec_expr(ex, r, env)), line,
                   note=r)
@@ -279,14 +280,16 @@ def visit_list(ex, obj, cc, seq, line):
     """[self.visit(a) for a in seq] for a functional visitor."""
     if "visit_fn" not in cc or cc.get("visit_effects"):
         raise Unsupported("comprehension of self.visit for a non-functional/stateful visitor")
-    env = {"node": Z(ex.P.PNone), "self": obj, "__old__": {"self": obj}}
+    env = dict(ex.closure_env)
+    env.update({"node": Z(ex.P.PNone), "self": obj, "__old__": {"self": obj}})
     sf = ex.w.specs[cc["visit_fn"]]
     extra = []
     for a in cc.get("visit_fn_args", []):
         v = eval_spec_expr(ex, a, env)
         extra.append(v.t if isinstance(v, Z) and v.t.sort() != ex.S.Py else ex.to_py(v))
     if cc.get("visit_requires_list"):
-        envl = {"nodes": seq, "self": obj}
+        envl = dict(ex.closure_env)
+        envl.update({"nodes": seq, "self": obj})
         for i, r in enumerate(cc["visit_requires_list"]):
             ex.oblige("pre", f"visit(list):requires[{i}]",
                       ex.to_bool(eval_spec_expr(ex, r, envl)), line, note=r)
@@ -303,7 +306,8 @@ def generic_visit(ex, obj, cc, x, line):
     NodeVisitor.generic_visit(node): visits every child, returns None."""
     S = ex.S
     t = ex.to_py(x)
-    env = {"node": Z(t), "self": obj, "__old__": {"self": snapshot(obj), "node": Z(t)}}
+    env = dict(ex.closure_env)
+    env.update({"node": Z(t), "self": obj, "__old__": {"self": snapshot(obj), "node": Z(t)}})
     base = cc.get("base")
     if cc.get("generic_requires") is not None:
         for i, r in enumerate(cc["generic_requires"]):
@@ -420,6 +424,7 @@ def run_one_path(ex, c, fnode, is_method, res):
         env[p] = sym_for(ex, p, psorts.get(p, "py"))
     for p, s in c.get("closure", {}).items():
         env[p] = sym_for(ex, p, s) if isinstance(s, str) else ex.lift_const(s["const"])
+        ex.closure_env[p] = env[p]
     for name, text in c.get("ghost", {}).items():
         env[name] = eval_spec_expr(ex, text, env)
     old_self = snapshot(self_obj)
